@@ -19,6 +19,7 @@ from .common import Report, jdump, use_repo
 PROPS = ("C20",)
 
 ACTIONS = ["Fire", "Fail", "AddCallback", "Match", "Extract"]
+ACTIONS_P = ACTIONS + ["Pause", "Unpause", "InnerFires", "InnerFails"]
 
 
 class UserError(Exception):
@@ -101,7 +102,8 @@ _serial = [0]
 class Ctx:
     def __init__(self):
         _serial[0] += 1
-        self.vals = {"None": None, "zero": 0, "one": 1, "nest": [("a", None), [1]]}
+        self.vals = {"None": None, "zero": 0, "one": 1, "two": 2, "nest": [("a", None), [1]]}
+        self.inners = []  # inner Deferreds returned by "chain" callbacks
         # unique texts: a log entry is attributed to this behaviour by text, never by object
         self.tags = {"e1": "e1#%d" % _serial[0], "e2": "e2#%d" % _serial[0]}
         self.excs = {"e1": ValueError(self.tags["e1"]), "e2": UserError(self.tags["e2"])}
@@ -187,7 +189,7 @@ def _replay(hist):
     bad = None
     for i, h in enumerate(hist):
         a, arg = h["a"], h["arg"]
-        was_called = d.called
+        was_called = (d.called, d.paused)
         nseen = len(ctx.seen)
         if a == "fire":
             d.callback(ctx.vals[arg[0]])
@@ -199,8 +201,24 @@ def _replay(hist):
                 d.addBoth(lambda r, s=ctx.seen: (s.append(("pass", r)), r)[1])
             elif arg == "trans":
                 d.addCallback(lambda v, s=ctx.seen: (s.append(("trans", v)), ("t", v))[1])
+            elif arg == "chain":
+                # returns a fresh, unfired Deferred: the outer one now waits for it (fired, but no result available)
+                def chain(v, s=ctx.seen, inners=ctx.inners):
+                    s.append(("chain", v))
+                    inners.append(defer.Deferred())
+                    return inners[-1]
+
+                d.addCallback(chain)
             else:
                 d.addBoth(lambda r, s=ctx.seen: s.append(("rec", r)))
+        elif a == "pause":
+            d.pause()
+        elif a == "unpause":
+            d.unpause()
+        elif a == "fireinner":
+            ctx.inners[-1].callback(ctx.vals[arg[0]])
+        elif a == "failinner":
+            ctx.inners[-1].errback(ctx.excs["e1"] if arg[0] == "e1" else _raise_failure(ctx.excs["e2"]))
         elif a == "match":
             m, calls = make_matcher(ctx, arg)
             try:
@@ -209,9 +227,9 @@ def _replay(hist):
                 bad = (i, "match-raised", h["res"], repr(ex), "%s:%s" % (arg["k"], pre["fired"]))
                 break
             verdict = "match" if got is None else "mismatch"
-            key = "%s(%s):%s" % (arg["k"], arg["i"], pre["fired"])
-            if d.called != was_called:
-                bad = (i, "NeverFires", "called=%s" % was_called, "called=%s" % d.called, key)
+            key = "%s(%s):%s" % (arg["k"], arg["i"], pre.get("label", pre["fired"]))
+            if (d.called, d.paused) != was_called:
+                bad = (i, "NeverFires", "(called, paused)=%s" % (was_called,), "(called, paused)=%s" % ((d.called, d.paused),), key)
                 break
             if h["res"] != "either" and verdict != h["res"]:
                 clause = "Trichotomy" if arg["i"] in ("always", "-") else "InnerApplied"
@@ -245,7 +263,7 @@ def _replay(hist):
                 ok = h["res"]["r"] == "raises" and h["res"]["val"][0] in ctx.excs and ex is ctx.excs[h["res"]["val"][0]]
                 obs = "raises %r" % (ex,)
             if not ok:
-                bad = (i, "ExtractRight", h["res"], obs, "extract:" + pre["fired"])
+                bad = (i, "ExtractRight", h["res"], obs, "extract:" + pre.get("label", pre["fired"]))
                 break
         # what user callbacks saw during this action (Preserved: intact for later callbacks)
         new = ctx.seen[nseen:]
@@ -259,7 +277,10 @@ def _replay(hist):
         if a != "extract" and d.called != (h["st"]["fired"] != "no"):
             bad = (i, "Preserved", "fired=%s" % h["st"]["fired"], "called=%s" % d.called, "called:%s" % a)
             break
+        # what is AVAILABLE after this action: nothing while the Deferred is paused or waits for an inner one
         pre = h["st"]
+        if h["blocked"]:
+            pre = {"fired": "no", "val": ["-"], "label": "no" if h["st"]["fired"] == "no" else "fired-but-no-result-yet"}
     excs = ["exc:" + t for t in ctx.tags.values()]
     last = hist[-1]
     expect_handled = None if (bad or last["a"] == "extract") else last["st"]["handled"]
@@ -304,6 +325,8 @@ def nontrivial_key(hist):
     acts = [h["a"] for h in hist]
     if "match" not in acts:
         return None
+    if any(h["a"] == "match" and i > 0 and hist[i - 1]["blocked"] and hist[i - 1]["st"]["fired"] != "no" for i, h in enumerate(hist)):
+        return jdump(abstract(hist))  # a match on a Deferred that was fired but has no result available
     first = acts.index("match")
     fired_before = any(x in ("fire", "fail") for x in acts[:first + 1]) or any(
         h["a"] == "match" and i > 0 and hist[i - 1]["st"]["fired"] != "no" for i, h in enumerate(hist)
@@ -378,7 +401,8 @@ def run(tier, pid="C20"):
         tier,
         "model_checking",
         "behaviour = sequence of actions on one Deferred (fire with None/0/1/nested list, fail with a bare or a raised "
-        "exception, add a pass-through / transforming / record-only callback, match with has_no_result / succeeded(m) / "
+        "exception, add a pass-through / transforming / record-only callback or one returning a fresh unfired Deferred, "
+        "pause / unpause, fire / fail that inner Deferred, match with has_no_result / succeeded(m) / "
         "failed(m) for inner m in Always, Never, Equals, type check, extract_result), every sequence up to the bound "
         "exported by TLC (exhaustive) or drawn by tlc -simulate; each replayed on a real Deferred with per-action "
         "comparison and a garbage-collection log check at the end. Non-trivial = a match on a fired Deferred or a match "
@@ -389,7 +413,8 @@ def run(tier, pid="C20"):
                "'handled' is observed with gc.collect() and a twisted.logger observer (self-tested at start)")  # fmt: skip
     rep.assume("after succeeded()/failed() inspected a failure the Deferred's value is unconstrained (wildcard in the model)")
     rep.assume("the Deferred after extract_result is outside the property: Extract ends a behaviour")
-    rep.assume("paused/chained Deferreds (result is another unfired Deferred) are outside 'fired with a value'")
+    rep.assume("a Deferred that is paused or waits for an inner unfired Deferred returned by a callback has NO result "
+               "available, whether or not callback()/errback() was called: has_no_result() matches it")  # fmt: skip
     rep.assume("SynchronousDeferredRunTest clause: outcome kinds (event names of ExtendedTestResult) are compared, not texts")
 
     begin_logging()
@@ -402,6 +427,7 @@ def run(tier, pid="C20"):
             ("df_exp3.cfg", {}),
             ("df_exp4Q.cfg", {}),
             ("df_exp5.cfg", {}),
+            ("df_expP5.cfg", {}),
             ("df_sim.cfg", dict(simulate=dict(num=300, depth=8), seed=rep.seed + 1)),
         ]
     else:
@@ -410,14 +436,17 @@ def run(tier, pid="C20"):
             ("df_exp4.cfg", {}),
             ("df_exp5M.cfg", {}),
             ("df_exp7.cfg", {}),
+            ("df_mcP7.cfg", dict(noexport=True)),
+            ("df_expP5T.cfg", {}),
             ("df_sim.cfg", dict(simulate=dict(num=6000, depth=8), seed=rep.seed + 1)),
+            ("df_simP.cfg", dict(simulate=dict(num=3000, depth=9), seed=rep.seed + 2)),
         ]
     try:
         for cfg, kw in jobs:
             noexport = kw.pop("noexport", False)
             r = tlc.run_tlc("twisted", "MCDeferredM", cfg, coverage=True, workers=8, timeout=2400, **kw)
             tlc.require_ok(r, "C20 " + cfg)
-            tlc.require_coverage(r, ACTIONS, "C20 " + cfg)
+            tlc.require_coverage(r, ACTIONS_P if "P" in cfg else ACTIONS, "C20 " + cfg)
             rep.add_tlc(r, cfg)
             if noexport:
                 continue
